@@ -179,6 +179,45 @@ def evaluate(res, ctx, name, ops, recs, err, rc, check_model=True, pid="C03", cl
                 continue
         if check_model and ctx.model_ok and im.get("files") and not im.get("level2"):
             model_jobs.append((im, what, replay))
+    # adoption step by step: the image at the j-th adoption crash point must be the model's directory
+    # state after j steps of `Adopt.steps` applied to the image at the first point
+    if check_model and ctx.model_ok:
+        by_op = {}
+        for im in images:
+            if im["ev"].startswith("adopt.") and not im.get("level2") and not im.get("cut") and im.get("files") is not None:
+                by_op.setdefault(im["op"], []).append(im)
+
+        def listing(im, d):
+            items = []
+            for fname, blob in im["files"].items():
+                dd, f = fname.split("/")
+                if dd == d:
+                    hx, zext = blob.rsplit(":", 1)
+                    items.append("%s:%d" % (f, len(hx) // 2 + int(zext)))
+            if d not in im.get("dirs", []):
+                return "files absent"
+            return "files " + ",".join(sorted(items))
+        for op_i, ims in by_op.items():
+            ims.sort(key=lambda x: x["k"])
+            first = ims[0]
+            mops = ["rmdir d", "rmdir d-merge"] + ["mkdir " + d for d in first.get("dirs", [])]
+            for fname, blob in sorted(first["files"].items()):
+                d, f = fname.split("/")
+                hx, zext = blob.rsplit(":", 1)
+                mops.append("setfile %s %s %s %s" % (d, f, hx or "-", zext))
+            base_n = len(mops)
+            for j, im in enumerate(ims):
+                seg = list(mops[:base_n]) + ["adoptprefix d %d" % j, "files d", "files d-merge"]
+                mo = run_model(seg)
+                got = (mo[-2], mo[-1])
+                exp = (listing(im, "d"), listing(im, "d-merge"))
+                res.count("adoption_prefix_images")
+                if mo[-3].startswith("ok") and got != exp and "?" not in got:
+                    res.violation("correspondence broke: directory state at adoption crash point %d (%s) of %s: code=%s model=%s" % (
+                        j, im["ev"], name, exp, got), {"ops": ops, "crash_event": im["k"], "code": exp, "model": got,
+                                                       "correspondence": "Adopt.steps prefix vs real adoption"}, no_input=True)
+                    break
+
     # model comparison: load the image bytes, recover, compare every observation
     if model_jobs:
         cfg = None
